@@ -8,8 +8,10 @@ src = {"A": "/tmp/mut-%s/_out/A", "B": "/tmp/mut-%s/_out/B", "C": "/tmp/m3-%s/_o
 ev = json.load(open(os.path.join(ROOT, "work", "muteval", "%s-%s.json" % (prop, x))))
 dst = os.path.join(ROOT, "seeded", "%s-%s" % (prop, x))
 os.makedirs(dst, exist_ok=True)
+if not os.path.isdir(src):
+    src = dst   # the author's scratch worktree is gone: the recorded copy is the source
 for f in ["patch.diff", "README.md"] + [os.path.basename(p) for p in glob.glob(os.path.join(src, "*_test.go"))]:
-    if os.path.exists(os.path.join(src, f)):
+    if src != dst and os.path.exists(os.path.join(src, f)):
         shutil.copy(os.path.join(src, f), os.path.join(dst, f))
 readme = open(os.path.join(src, "README.md")).read() if os.path.exists(os.path.join(src, "README.md")) else ""
 viol = [l for l in ev.get("check_out", []) if l.startswith("VIOLATION")]
